@@ -236,6 +236,19 @@ func genSlSend(g *genCtx) {
 	for d := 1; d <= depth; d++ {
 		rec("", d)
 	}
+	// a sample of long scripts (4…9 attempts)
+	deep := 150
+	if g.thorough() {
+		deep = 3000
+	}
+	for i := 0; i < deep; i++ {
+		n := 4 + g.rng.Intn(6)
+		sc := ""
+		for j := 0; j < n-1; j++ {
+			sc += string("BTXGKRMYL"[g.rng.Intn(9)])
+		}
+		scripts = append(scripts, sc+string(alphabet[g.rng.Intn(len(alphabet))]))
+	}
 	for _, script := range scripts {
 		fn := byte(g.rng.Intn(0x16)) << 1
 		var body byte
